@@ -410,6 +410,10 @@ def argflow_exprs():
             "(function(){ var o = {toString: console.log}; try { return '' + o; } catch (e) { return e; } })()",
             "[3, 1, 2].sort(console.log)", "[1, 2].map(console.log)", "[1, 2].reduce(console.log)", "[1, 2].find(console.log)", "[1, 2].filter(console.log)",
             "'abc'.replace(/b/, console.log)", "JSON.stringify({a: 1}, console.log)", "JSON.parse('{\"a\": 1}', console.log)",
+            "JSON.stringify({set x(v){}, a: 1}, function(k, v){ inspect(k); inspect(v); return v; })",
+            "JSON.stringify({set x(v){}, get y(){ return 2; }}, inspect)", "JSON.stringify([function(){}, undefined], function(k, v){ inspect(v); return v; })",
+            "(function(){ var o = {}; Object.defineProperty(o, 'w', {set: function(v){}, enumerable: true}); var seen = []; for (var k in o) seen.push(o[k]); return [o.w, seen, Object.values ? Object.values(o) : 0, Object.entries ? Object.entries(o) : 0]; })()",
+            "Object.assign({}, {set x(v){}})", "JSON.parse(JSON.stringify({a: undefined, b: function(){}, c: [undefined]}))",
             "new console.log()", "console.log.call(null)", "console.log.apply(null, [])", "console.log.bind(null)()", "void console.log()"]
     return out
 
